@@ -49,7 +49,7 @@ for d in sorted(glob.glob(f'{root}/C*/[0-9]*')):
         'how': 'scratch git worktree of /repo at the HEAD named in confirm.txt (removed afterwards): patch applied -> `cargo test --offline` (existing suite); demonstration added -> run with the change, then with the change reverted',
         'transcript': 'confirm.txt',
         'suite_green_with_change': bool(results and results[0] == 'ok'),
-        'demo_fails_with_change': (('FAIL' in c or 'expected' in c) if js else (len(results) > 1 and results[1] == 'FAILED') or 'panicked' in c or '::{{closure}}' in c),
+        'demo_fails_with_change': ((lambda seg: bool(seg.strip()) and 'OK:' not in seg and ' holds' not in seg)(c.split('js demo with change:')[1].split('-- js demo without change:')[0]) if js else (len(results) > 1 and results[1] == 'FAILED') or 'panicked' in c or '::{{closure}}' in c),
         'demo_passes_without_change': (('OK' in c or 'holds' in c or 'ok ' in c) if js else (len(results) > 0 and results[-1] == 'ok')),
     }
     if os.path.exists(f'{d}/patch.original.diff'):
